@@ -27,7 +27,8 @@ CONSTANTS Slates,        \* slate names, e.g. {"s1","s2"}
           UseAccounts2,  \* a second account on the recipient w2, receives into it by name
           UseSelf,       \* w1 may receive its own slates (self-send), also into its second account
           FundAcct2,     \* w1 starts with a second account (a1 / "acct1") that holds NFund coinbases too
-          UseBuild       \* owner::build_output and owner::create_mwixnet_req (second reservation kind) on w1
+          UseBuild,      \* owner::build_output and owner::create_mwixnet_req (second reservation kind) on w1
+          NChanges       \* numbers of change outputs a send may ask for (a set, e.g. {1} or {1, 2})
 
 VARIABLES st, hv, net, hist, mids   \* mids: the intermediate persistent states of the last step
 vars == <<st, hv, net, hist, mids>>
@@ -149,22 +150,27 @@ UpdS(steps, hv2, net2, e) == /\ st' = LastOr(steps, st) /\ hv' = HvIssued(hv2, L
                              /\ mids' = steps /\ steps = steps
 Msg(sl, stage, amt, ttl, rout, rep) == [sl |-> sl, stage |-> stage, amt |-> amt, ttl |-> ttl, rout |-> rout, rep |-> rep]
 ChgSeq(sel) == IF sel.chg = 0 THEN <<>> ELSE <<sel.chg>>
+ChgSeqN(sel, n) == IF sel.chg = 0 THEN <<>> ELSE [i \in 1..n |-> sel.chg \div n]
 
 \* -- sender w1 initiates a send of amt to w2 from account src ("" = active)
-InitSendAct(sl, amt, late, ttlb, src) ==
+InitSendActN(sl, amt, late, ttlb, src, nchg) ==
   /\ sl \notin DOMAIN st.w["w1"].ctxs
   /\ ~\E m \in net : m.sl = sl
   /\ LET acct == AcctOf(st, "w1", src)
          r1  == Refresh1(st, "w1", acct, FALSE)
-         sel == Select(r1, "w1", acct, amt, Height(st), 1, 1)
+         sel == Select(r1, "w1", acct, amt, Height(st), 1, nchg)
          ttl == IF ttlb = 0 THEN 0 ELSE Height(st) + ttlb
-         args == [sl |-> sl, src |-> src, amt |-> amt, sel |-> sel.sel, chg |-> ChgSeq(sel), fee |-> sel.fee,
+         args == [sl |-> sl, src |-> src, amt |-> amt, sel |-> sel.sel, chg |-> ChgSeqN(sel, nchg), fee |-> sel.fee,
                   late |-> late, incfee |-> FALSE, ttl |-> ttl, proof |-> FALSE,
-                  minconf |-> 1, maxouts |-> 500, nchange |-> 1, useall |-> FALSE]
-         e == [ev |-> "init_send", w |-> "w1", sl |-> sl, amt |-> amt, late |-> late, ttlb |-> ttlb, src |-> src]
-     IN IF sel.ok
-        THEN UpdS(InitSend(st, "w1", args).steps, hv, net \cup {Msg(sl, "S1", amt, ttl, "", 0)}, e)
-        ELSE UpdS(InitSendErr(st, "w1", args, 0).steps, hv, net, e)
+                  minconf |-> 1, maxouts |-> 500, nchange |-> nchg, useall |-> FALSE]
+         e0 == [ev |-> "init_send", w |-> "w1", sl |-> sl, amt |-> amt, late |-> late, ttlb |-> ttlb, src |-> src]
+         e == IF nchg = 1 THEN e0 ELSE [f \in (DOMAIN e0) \cup {"nchange"} |-> IF f = "nchange" THEN nchg ELSE e0[f]]
+     IN \* (several change outputs: the units scheme needs a change that splits evenly)
+        /\ (sel.ok /\ nchg > 1) => (sel.chg % nchg = 0 /\ sel.chg >= nchg)
+        /\ IF sel.ok
+           THEN UpdS(InitSend(st, "w1", args).steps, hv, net \cup {Msg(sl, "S1", amt, ttl, "", 0)}, e)
+           ELSE UpdS(InitSendErr(st, "w1", args, 0).steps, hv, net, e)
+InitSendAct(sl, amt, late, ttlb, src) == \E n \in (IF late THEN {1} ELSE NChanges) : InitSendActN(sl, amt, late, ttlb, src, n)
 
 LockAct(sl, m) ==
   /\ sl \in DOMAIN st.w["w1"].ctxs
